@@ -80,8 +80,17 @@ def stored_patch_variants() -> List['Variant']:
     for rid in sorted(os.listdir(rd)) if os.path.isdir(rd) else []:
         pf = os.path.join(rd, rid, 'patch.diff')
         if os.path.exists(pf):
+            # checks for which "cannot decide" (exit 2) is the documented answer on this tree: never a violation, not a pass
+            und = set()
+            uf = os.path.join(rd, rid, 'undecided.txt')
+            if os.path.exists(uf):
+                und = {ln.split()[0] for ln in open(uf) if ln.strip() and not ln.startswith('#')}
             for i in range(1, 21):
-                out.append(PatchVariant('C%02d' % i, 'silent: refactoring %s' % rid, pf, 'silent'))
+                pid = 'C%02d' % i
+                if pid in und:
+                    out.append(PatchVariant(pid, 'undecided: refactoring %s' % rid, pf, 'undecided'))
+                else:
+                    out.append(PatchVariant(pid, 'silent: refactoring %s' % rid, pf, 'silent'))
     return out
 
 
@@ -129,7 +138,7 @@ def run_variant(v: Variant, keep=False) -> dict:
                            cwd=VERIF, env=env, capture_output=True, text=True, timeout=300)
         fired = p.returncode == 1
         rules = sorted({ln.split('rule ')[1].split()[0] for ln in p.stdout.splitlines() if '  rule ' in ln})
-        ok = (fired and v.expect == 'fire') or (p.returncode == 0 and v.expect == 'silent')
+        ok = (fired and v.expect == 'fire') or (p.returncode == 0 and v.expect == 'silent') or (p.returncode == 2 and v.expect == 'undecided')
         if ok and v.expect == 'fire' and v.rule and v.rule not in rules:
             ok = False
         return {'variant': v.name, 'property': v.prop, 'expect': v.expect, 'rc': p.returncode, 'rules': rules,
@@ -145,7 +154,9 @@ def run_all(prop: Optional[str] = None, jobs: int = 16) -> dict:
         res = list(ex.map(run_variant, vs))
     fire = [r for r in res if r.get('expect') == 'fire']
     silent = [r for r in res if r.get('expect') == 'silent']
+    und = [r for r in res if r.get('expect') == 'undecided']
     return {
+        'must_be_undecided': len(und), 'undecided': sum(1 for r in und if r['status'] == 'ok'),
         'variants': len(vs),
         'must_fire': len(fire), 'fired': sum(1 for r in fire if r['status'] == 'ok'),
         'must_stay_silent': len(silent), 'silent': sum(1 for r in silent if r['status'] == 'ok'),
@@ -171,8 +182,8 @@ def main(argv=None):
     for r in out['wrong']:
         print('---- WRONG', r['variant'], 'rc', r['rc'])
         print(r['out'])
-    print('must-fire %d/%d  must-stay-silent %d/%d  skipped %d' % (out['fired'], out['must_fire'], out['silent'],
-                                                                    out['must_stay_silent'], out['skipped']))
+    print('must-fire %d/%d  must-stay-silent %d/%d  must-say-undecided %d/%d  skipped %d'
+          % (out['fired'], out['must_fire'], out['silent'], out['must_stay_silent'], out['undecided'], out['must_be_undecided'], out['skipped']))
     return 0 if not out['wrong'] else 1
 
 
